@@ -17,6 +17,7 @@ class Search(FilterFunction):
         try:
             # re.search caches compiled patterns internally
             return bool(re.search(pattern, string))
-        except (TypeError, re.error, OverflowError):
-            # OverflowError for a repetition count that is too large
+        except (TypeError, ValueError, re.error, OverflowError):
+            # OverflowError for a repetition count that is too large and
+            # ValueError for incompatible inline flags
             return False
